@@ -535,5 +535,5 @@ Available join types:
                 if col == feature_name or col.startswith(f"{feature_name}~"):
                     matching_cols.append(col)
             matching_cols.sort()
-            result.extend(matching_cols)
+            result.extend(col for col in matching_cols if col not in result)
         return result
